@@ -432,6 +432,7 @@ def num_configs(tier):
         out.append(("IntegerEdit", 10, neg, -5 if neg else 5))
         out.append(("FloatEdit", ".", neg, None))
         out.append(("FloatEdit", ",", neg, "1.5"))
+    out.append(("FloatEdit", ",", False, None, "deprecated-keywords"))  # decimalSeparator= / preserveSignificance=, still accepted
     return out
 
 
@@ -448,7 +449,14 @@ class NumState:
             self.allowed = set("0123456789") if cfg[1] == 10 else set("0123456789abcdefABCDEF")
             self.neg = cfg[2]
         else:
-            self.e = numedit.FloatEdit("n:", Decimal(cfg[3]) if cfg[3] else None, decimal_separator=cfg[1], allow_negative=cfg[2])
+            if len(cfg) > 4:
+                import warnings
+
+                with warnings.catch_warnings():
+                    warnings.simplefilter("ignore")
+                    self.e = numedit.FloatEdit("n:", None, preserveSignificance=True, decimalSeparator=cfg[1])
+            else:
+                self.e = numedit.FloatEdit("n:", Decimal(cfg[3]) if cfg[3] else None, decimal_separator=cfg[1], allow_negative=cfg[2])
             self.allowed = set("0123456789") | {cfg[1]}
             self.neg = cfg[2]
         self.size = (12,)
